@@ -74,6 +74,16 @@ def stepLine (st : St) (line : String) : St × String :=
   | ["ae", h] => match str? h with
     | some s => (st, showStrList (parseHeader s))
     | none => (st, "bad-op")
+  | "hist" :: cfg :: ops => match strList? cfg with
+    | none => (st, "bad-op")
+    | some cfg0 =>
+      let parsed : Option (List CfgOp) := ops.mapM fun o =>
+        if o.startsWith "s:" then (strList? (o.drop 2).toString).map CfgOp.setUsed
+        else if o.startsWith "r:" then (optStr? (o.drop 2).toString).map CfgOp.request
+        else none
+      match parsed with
+      | none => (st, "bad-op")
+      | some l => (st, " ".intercalate ((cfgRun cfg0 l).map fun e => match e.2.2 with | some c => showStr c | none => "none"))
   | ["choose", h, sup] => match optStr? h, strList? sup with
     | some s, some l => (st, match choose (parseHeader (s.getD [])) l with | some c => "ok " ++ showStr c | none => "none")
     | _, _ => (st, "bad-op")
